@@ -119,7 +119,10 @@ AnnouncedUniques == {m.args[1].v : m \in {x \in AllObs : /\ x.mem = S_NameOwnerC
 HelloNames(op) == IF op.got # <<>> THEN {op.got} ELSE AnnouncedUniques \cup {<<>>}
 
 Apply(s, op) ==
+  IF cst[s] = "monitor" /\ op.k # "connect" THEN Plain(MonitorSpeaks(s)) ELSE
   CASE op.k = "connect" -> Plain(Connect(s, op.uid))
+    [] op.k = "monitor" -> \E order \in [1..Cardinality(NamesOf(queue, s)) -> NamesOf(queue, s)] :
+                              Plain(BecomeMonitor(s, op.ser, op.fl, op.rules, op.flags, order))
     [] op.k = "hello" -> \E nw \in HelloNames(op) : Plain(Hello(s, op.ser, op.fl, nw))
     [] op.k = "req" -> Plain(RequestName(s, op.ser, op.fl, op.n, op.f))
     [] op.k = "rel" -> Plain(ReleaseName(s, op.ser, op.fl, op.n))
